@@ -3,6 +3,7 @@ package props
 import (
 	"bytes"
 	"fmt"
+	"strings"
 	"time"
 	_ "time/tzdata" // embedded time zone database: civil zones with DST rules without depending on the host
 
@@ -166,7 +167,7 @@ func c17ZoneExec(c *core.Ctx, in c17Zone) {
 func c17StampExec(c *core.Ctx, in c17Stamp) {
 	loc := time.FixedZone("x", in.OffsetSec)
 	if in.Location != "" {
-		l, err := time.LoadLocation(in.Location)
+		l, err := c17Location(in.Location)
 		if err != nil {
 			c.Note("time zone database has no " + in.Location)
 			return
@@ -204,6 +205,43 @@ func c17StampExec(c *core.Ctx, in c17Stamp) {
 	_, off := back.Zone()
 	if !back.Equal(t) || off != in.OffsetSec {
 		fail("decode", fmt.Sprintf("%s decodes back to %s", t.Format(time.RFC3339), back.Format(time.RFC3339)))
+	}
+}
+
+// c17Location loads a civil time zone once per process, as an application would (the same *time.Location value is
+// then used for every instant of a sequence).
+var c17Locs = map[string]*time.Location{}
+
+func c17Location(name string) (*time.Location, error) {
+	if l, ok := c17Locs[name]; ok {
+		return l, nil
+	}
+	l, err := time.LoadLocation(name)
+	if err == nil {
+		c17Locs[name] = l
+	}
+	return l, err
+}
+
+// c17StampSeq: consecutive encodings in one civil time zone, in order (the zone string must be derived from each
+// instant, not remembered from the previous one).
+type c17StampSeq struct {
+	Location string  `json:"location"`
+	Unix     []int64 `json:"unix"`
+}
+
+func c17StampSeqExec(c *core.Ctx, in c17StampSeq) {
+	for i, u := range in.Unix {
+		sub := core.NewCtx(c.Prop, c.Tier, 0, 0, 1)
+		c17StampExec(sub, c17Stamp{Unix: u, Location: in.Location})
+		for k, v := range sub.Viols {
+			short := c17StampSeq{Location: in.Location, Unix: in.Unix[:i+1]}
+			if len(short.Unix) > 400 {
+				short.Unix = short.Unix[len(short.Unix)-400:]
+			}
+			c.FailCase("timestamp-sequence|"+strings.SplitN(k, "|", 3)[2], fmt.Sprintf("encoding %d of a sequence in %s: %s", i+1, in.Location, v.What), "timestamp-seq", short)
+			return
+		}
 	}
 }
 
@@ -348,26 +386,36 @@ func c17Run(c *core.Ctx) {
 	// and every hour of the two transition months, in zones west and east of Greenwich incl. half-hour rules
 	civil := []string{"America/New_York", "America/St_Johns", "America/Los_Angeles", "America/Sao_Paulo", "Europe/Berlin", "Europe/London",
 		"Atlantic/Azores", "Australia/Lord_Howe", "Australia/Adelaide", "Pacific/Chatham", "Asia/Kolkata", "Pacific/Auckland", "America/Havana"}
+	// zones whose standard offset itself changed between 2000 and 2099 (same location, same DST flag, different offsets)
+	civil = append(civil, "Europe/Moscow", "America/Caracas", "Asia/Pyongyang", "Pacific/Apia", "Europe/Istanbul", "Asia/Colombo", "Africa/Casablanca", "Pacific/Fakaofo")
 	for li, name := range civil {
 		if !c.Mine(li + 7) {
 			continue
 		}
-		if !c.Begin("stamps-civil", "UniversalTime", map[string]string{"location": name}) {
-			continue
-		}
+		var seq []int64
 		for _, y := range []int{2000, 2024, 2025, 2037} {
 			for d := 0; d < 366; d++ {
-				t := time.Date(y, 1, 1, 12, 0, 0, 0, time.UTC).AddDate(0, 0, d)
-				c17StampExec(c, c17Stamp{Unix: t.Unix(), Location: name})
-				n++
+				seq = append(seq, time.Date(y, 1, 1, 12, 0, 0, 0, time.UTC).AddDate(0, 0, d).Unix())
 			}
 			for _, m := range []time.Month{3, 4, 10, 11} {
 				for h := 0; h < 24*31; h++ {
-					t := time.Date(y, m, 1, 0, 30, 0, 0, time.UTC).Add(time.Duration(h) * time.Hour)
-					c17StampExec(c, c17Stamp{Unix: t.Unix(), Location: name})
-					n++
+					seq = append(seq, time.Date(y, m, 1, 0, 30, 0, 0, time.UTC).Add(time.Duration(h)*time.Hour).Unix())
 				}
 			}
+		}
+		// one instant every 45 days over 2000..2040, forwards and backwards (offset changes of the zone itself)
+		var sparse []int64
+		for t := time.Date(2000, 1, 15, 9, 0, 0, 0, time.UTC); t.Year() <= 2040; t = t.AddDate(0, 0, 45) {
+			sparse = append(sparse, t.Unix())
+		}
+		seq = append(seq, sparse...)
+		for i := len(sparse) - 1; i >= 0; i-- {
+			seq = append(seq, sparse[i])
+		}
+		in := c17StampSeq{Location: name, Unix: seq}
+		if c.Begin("timestamp-seq", "UniversalTime", map[string]any{"location": name, "instants": len(seq)}) {
+			c17StampSeqExec(c, in)
+			n += int64(len(seq))
 		}
 	}
 	// names: all lengths 0..64 with patterns; per-position all 128 septet values for lengths <= 17
@@ -422,12 +470,13 @@ func init() {
 	core.RegisterKind("C17", "ambr", c17AmbrExec)
 	core.RegisterKind("C17", "zone", c17ZoneExec)
 	core.RegisterKind("C17", "timestamp", c17StampExec)
+	core.RegisterKind("C17", "timestamp-seq", c17StampSeqExec)
 	core.RegisterKind("C17", "name", c17NameExec)
 	core.RegisterProp(&core.PropSpec{
 		ID: "C17", Level: "exploration", Run: c17Run,
 		Shards: func(string) int { return 16 },
 		Rule: func(string) string {
-			return "complete enumeration: every duration 0..1 116 000 s (timer 3) and 0..11 160 s (timer 2); all 65 536 AMBR values x 5 units x 2 directions; all 159 quarter-hour zones x DST 0/1/2 inside the stated domain; every day of 2000-2099 at 00:00:00 and 23:59:59 in 5 fixed zones, every second of 4 days in 5 zones, and 13 civil time zones with daylight-saving rules (embedded tz database; every day of 4 years at noon and every hour of the transition months); names of every length 0..64 with 4 patterns and every septet value at every position for lengths <= 17, both name functions. Oracle: unit tables of TS 24.008 10.5.7.4/10.5.7.4a (decode(encode(d)) = d for representable d, <= d always), Table 9.11.4.14.1 unit codes and 16-bit big-endian values, semi-octet BCD time coding with sign bit, GSM 7-bit unpacking per TS 23.038 returning exactly the name's septets from ceil(7n/8) octets with (8 - 7n mod 8) mod 8 spare bits."
+			return "complete enumeration: every duration 0..1 116 000 s (timer 3) and 0..11 160 s (timer 2); all 65 536 AMBR values x 5 units x 2 directions; all 159 quarter-hour zones x DST 0/1/2 inside the stated domain; every day of 2000-2099 at 00:00:00 and 23:59:59 in 5 fixed zones, every second of 4 days in 5 zones, and 21 civil time zones (embedded tz database; DST rules west and east of Greenwich, half-hour rules, zones whose standard offset changed) as ordered sequences in one process: every day of 4 years at noon, every hour of the transition months, one instant every 45 days over 2000-2040 forwards and backwards; names of every length 0..64 with 4 patterns and every septet value at every position for lengths <= 17, both name functions. Oracle: unit tables of TS 24.008 10.5.7.4/10.5.7.4a (decode(encode(d)) = d for representable d, <= d always), Table 9.11.4.14.1 unit codes and 16-bit big-endian values, semi-octet BCD time coding with sign bit, GSM 7-bit unpacking per TS 23.038 returning exactly the name's septets from ceil(7n/8) octets with (8 - 7n mod 8) mod 8 spare bits."
 		},
 		Assumptions: []string{
 			"zone/DST combinations whose effective offset crosses zero or leaves ±19:45 are outside the stated domain (no such zone exists; counted, not asserted)",
